@@ -170,7 +170,8 @@ prop(
     id="C07",
     stages=C06_STAGES + [dict(name="c07runs", pkg="c07", test="TestC07Runs", access=[WORKERS_ACCESS, RUN_ACCESS], timeout_quick=300, timeout_thorough=3000),
                          dict(name="c07late", pkg="c07", test="TestC07LateMark", access=[WORKERS_ACCESS, RUN_ACCESS], timeout_quick=300, timeout_thorough=3000),
-                         dict(name="c07conc", pkg="c07", test="TestC07ConcurrentMarks", access=[WORKERS_ACCESS, RUN_ACCESS], timeout_quick=300, timeout_thorough=3000)],
+                         dict(name="c07conc", pkg="c07", test="TestC07ConcurrentMarks", access=[WORKERS_ACCESS, RUN_ACCESS], timeout_quick=300, timeout_thorough=3000),
+                         dict(name="c07logfile", pkg="c07", test="TestC07LogFile", access=[WORKERS_ACCESS, RUN_ACCESS], timeout_quick=300, timeout_thorough=3000)],
     rule="(a) as C06 (a): per-iteration outcomes of generated bodies on one worker vs the model's classification, T.Failed() at body entry must be false; "
          "(b) whole runs in every trigger mode with per-iteration-id outcome plans (pass, each failure API, require assertion, panics with error/string/int/struct/runtime error): "
          "planned counts vs Result totals vs exported sample counts through the extracted predicate c01_ok; every fourth whole run has iterations that mark the scenario's own handle failed while others are in flight; non-trivial = body that fails or panics; distinct = distinct programs/plans",
